@@ -336,7 +336,8 @@ Fixpoint(stable) ==
     IN
     /\ healthy                                                                                        \* (I)
     /\ G("C08", stable)                                                                               \* a further reconcile changes nothing and issues no cloud mutation
-    /\ G("C08", \A e \in Enis : cloud[e].on => cloud[e].att /\ EniSt(crE, e) = "InUse")               \* nothing created is left over unrecorded / half-deleted
+    /\ G("C08", \A e \in Enis : cloud[e].on => cloud[e].att /\ (HasEni(crE, e) => EniSt(crE, e) = "InUse"))   \* nothing created is left over unattached / half-deleted
+                                                                                                      \* (attached but unrecorded after lost status writes: judged at Synced)
     /\ G("C08", \A y \in crE : cloud[y.e].on)
     /\ G("C08", \A p \in Pods : Eligible(p) => HasAll(p) \/ ~Room(pods[p].rdma))                      \* every eligible pod has its address(es)
     /\ G("C08", Cardinality(idleNP) <= conf.max)                                                      \* idle addresses within the band
